@@ -794,6 +794,8 @@ class NPMixin:
                     if b.ndim == 2:
                         yield st1, self.new_obj(st1, self.lam(lambda i, j: b[j, i], (b.shape[1], b.shape[0]), b.kind)); continue
                 yield st1, Func('method:' + n.attr, bound=base); continue
+            if isinstance(b, KindTag) and n.attr == 'type':
+                yield st1, b; continue          # dtype.type: the scalar class, same kind
             if isinstance(b, Slice) and n.attr in ('start', 'stop', 'step'):
                 v = {'start': b.lo, 'stop': b.hi, 'step': b.step}[n.attr]
                 yield st1, (NONE if v is None else v); continue
@@ -945,7 +947,13 @@ class NPMixin:
                 return
             a = args[0]
             if isinstance(a, ast.Starred):
-                raise Unsupported('*args')
+                # f(*t): only a tuple of statically known length is spliced
+                for st1, v in self.eval(a.value, st):
+                    t = self.deref(st1, v)
+                    if not isinstance(t, Tup):
+                        raise Unsupported('*args of a non-tuple')
+                    yield from rec(args[1:], st1, acc + list(t.items))
+                return
             for st1, v in self.eval(a, st):
                 yield from rec(args[1:], st1, acc + [v])
         for st1, argv in rec(n.args, st, []):
